@@ -7,5 +7,5 @@ S=$(mktemp -d /var/tmp/vsetup.XXXXXX)
 trap 'rm -rf "$S"' EXIT
 go build ./vrt/... ./explore/... ./instr/... ./vapi/... ./hstore/...
 ./build_sched.sh "$S" 
-if [ -d cmd/hseq ] && ls cmd/hseq/*.go >/dev/null 2>&1; then go build -o "$S/hseq" ./cmd/hseq; fi
+./build_seq.sh "$S"
 echo setup ok
